@@ -432,7 +432,7 @@ class History(Contract):
 
     def __init__(self, func, kind, config='fallback'):
         self.func, self.kind, self.config = func, kind, config
-        self.vnames = ('y',) if kind == 'pwc' else ('y1', 'y2')
+        self.vnames = ('y',) if kind == 'pwc' else (('y1', 'y2') if kind == 'pwl' else ('y', 'mp'))
 
     def setup(self, mode, size, values=None):
         st = State()
@@ -466,6 +466,25 @@ class History(Contract):
             c.ts = ts
             c.fac = real('fac')
             pre = [spec.sorted_strict(c.X)] + [band(cmp('<=', c.X[0], t), cmp('<=', t, c.X[n])) for t in ts]
+        elif self.func.endswith('query_add_query'):
+            n0, n = size
+            disc = self.kind == 'disc'
+            suffix0 = {'pwc': ['y0'], 'pwl': ['y10', 'y20'], 'disc': ['y0', 'mp0']}[self.kind]
+            ext = 2 if disc else 1                 # discrete: edge, n events, edge ; piecewise: n pieces
+            c.X0 = arr('x0', n0 + ext)
+            c.Y0 = [arr(v, n0 + 2 if disc else n0) for v in suffix0]
+            c.X = arr('x', n + ext)
+            c.Y = [arr(v, n + 2 if disc else n) for v in self.vnames]
+            c.a, c.b, c.fac = real('a'), real('b'), real('fac')
+            l0, l1 = c.X0.n - 1, c.X.n - 1
+            pre = [cmp('==', c.X0[0], c.X[0]), cmp('==', c.X0[l0], c.X[l1]), cmp('<', c.X0[0], c.X0[l0]),
+                   cmp('<=', c.X0[0], c.a), cmp('<', c.a, c.b), cmp('<=', c.b, c.X0[l0])]
+            if disc:
+                for x_, ln in ((c.X0, l0), (c.X, l1)):
+                    pre += [cmp('<', x_[k], x_[k + 1]) for k in range(1, ln - 1)]
+                    pre += [cmp('<=', x_[0], x_[1]), cmp('<=', x_[ln - 1], x_[ln])] if ln > 1 else []
+            else:
+                pre += [spec.sorted_strict(c.X0), spec.sorted_strict(c.X)]
         elif self.func.endswith('accumulate'):
             n0, n = size
             suffix0 = ['y0'] if self.kind == 'pwc' else ['y10', 'y20']
@@ -493,6 +512,10 @@ class History(Contract):
                     ('same_as_fresh_object', band(*[cmp('==', b[i], cc[i]) for i in range(min(m, b.n, cc.n))])),
                     ('scaled', band(*[cmp('==', b[i], t_(arith('*', c.fac, a[i]))) for i in range(min(m, a.n, b.n))])),
                     ('finite', band(*[band(a.fin(i), b.fin(i)) for i in range(min(m, a.n, b.n))]))]
+        if self.func.endswith('query_add_query'):
+            vals = [t_(v) for v in ret]
+            k = len(vals) // 3
+            return [('same_as_fresh_object[%d]' % i, cmp('==', vals[k + i], vals[2 * k + i])) for i in range(k)]
         if self.func.endswith('accumulate'):
             nv = len(self.vnames)
             out = []
